@@ -662,15 +662,23 @@ def contract_known_loops(fnode, ref: dict) -> int:
                 tgt = a.targets[0].id
                 empty_list = isinstance(a.value, ast.List) and not a.value.elts
                 empty_dict = isinstance(a.value, ast.Dict) and not a.value.keys
-                body, ifs = l.body, []
-                while len(body) == 1 and isinstance(body[0], ast.If) and not body[0].orelse:
-                    ifs.append(body[0].test)
-                    body = body[0].body
+                gens = []
+                cur_l = l
+                while True:
+                    body, ifs = cur_l.body, []
+                    while len(body) == 1 and isinstance(body[0], ast.If) and not body[0].orelse:
+                        ifs.append(body[0].test)
+                        body = body[0].body
+                    gens.append(ast.comprehension(target=cur_l.target, iter=cur_l.iter, ifs=ifs, is_async=0))
+                    if len(body) == 1 and isinstance(body[0], ast.For) and not body[0].orelse:
+                        cur_l = body[0]
+                        continue
+                    break
                 comp = None
                 if len(body) == 1 and empty_list and isinstance(body[0], ast.Expr) and isinstance(body[0].value, ast.Call) and _unparse(body[0].value.func) == f"{tgt}.append" and len(body[0].value.args) == 1:
-                    comp = ast.ListComp(elt=body[0].value.args[0], generators=[ast.comprehension(target=l.target, iter=l.iter, ifs=ifs, is_async=0)])
+                    comp = ast.ListComp(elt=body[0].value.args[0], generators=gens)
                 elif len(body) == 1 and empty_dict and isinstance(body[0], ast.Assign) and isinstance(body[0].targets[0], ast.Subscript) and _unparse(body[0].targets[0].value) == tgt:
-                    comp = ast.DictComp(key=body[0].targets[0].slice, value=body[0].value, generators=[ast.comprehension(target=l.target, iter=l.iter, ifs=ifs, is_async=0)])
+                    comp = ast.DictComp(key=body[0].targets[0].slice, value=body[0].value, generators=gens)
                 if comp is not None:
                     ast.copy_location(comp, a)
                     ast.fix_missing_locations(comp)
@@ -741,6 +749,15 @@ def unguard(fnode, ref: dict) -> int:
         changed = False
         for blk, kind in _tail_blocks(fnode):
             for i, st in enumerate(blk[:-1]):
+                if isinstance(st, ast.If) and st.orelse and all(isinstance(x, ast.Pass) for x in st.body) and _is_bare_exit(st.orelse[-1], kind):
+                    # `if C: pass else: X; return` + REST  ==  `if C: REST else: X`
+                    rest = blk[i + 1:]
+                    st.body = rest
+                    st.orelse = st.orelse[:-1]
+                    del blk[i + 1:]
+                    n += 1
+                    changed = True
+                    break
                 if isinstance(st, ast.If) and not st.orelse and st.body and _is_bare_exit(st.body[-1], kind) and _unparse(st.test) not in keep:
                     rest = blk[i + 1:]
                     x = st.body[:-1]
